@@ -81,7 +81,7 @@ def run_views(chk, model, cases, suite):
             if grammar and got_prefix[0] == 0:
                 # by construction: the text before the first wildcard
                 want = ml.render_prefix(atoms, env)
-                want = ml.root_prefix(side, want if want else (base or "")) + want
+                want = ml.root_prefix_atoms(side, atoms, env) + want
                 if common.l2s(got_prefix[1]) != want:
                     chk.fail("prefix-not-the-leading-text", {"side": side}, {
                         "got": common.l2s(got_prefix[1]), "expected": want})
@@ -166,7 +166,7 @@ def run_expand(chk, model):
                           or (a[0] == "A" and env.resolved.get("locale") is None)), None)
         odd = any(n in env.resolved for n in ("st", "android_locale"))
         if not odd and not (side[2] and first_bad is atoms[0]):
-            want = ml.root_prefix(side, cut if cut else "x") + cut
+            want = ml.root_prefix_atoms(side, atoms, env) + cut
             if got[0] != 0 or common.l2s(got[1]) != want:
                 chk.fail("expansion-wrong" if full is not None else "expansion-cut-wrong",
                          {"side": side}, {"got": got, "expected": want})
